@@ -237,6 +237,10 @@ func anchorOrigin(ao int) interface{} {
 		return map[string]interface{}{"o": ao - 100, "\ufb01": 1, "\U0001f600": 2.5e-7, "z": math.Copysign(0, -1),
 			// (the boundaries of the number formats: 1e-6 and 1e21 are the first values written the other way)
 			"b": []interface{}{1e-6, 1e-7, 1e21, 1e20, 999999999999999900000.0, 295147905179352830000.0, 1.5e-6},
+			// (whole numbers that requests may spell digit by digit although a double does not hold them: see spellDigits)
+			"big": []interface{}{9007199254740992.0, 1e22},
+			// (names of which one is the other followed by a blank / an exclamation mark - characters below the quote)
+			"o ": 3, "o!": 4,
 			// (a run of one control character that differs from origin to origin)
 			"c\x0b\x1f": "\x0e\x1a\x1b\x7f\x01" + strings.Repeat(string(rune(1+ao%7)), 30)}
 	default:
@@ -259,6 +263,14 @@ func unoffT(t uint64) uint64 {
 	}
 
 	return t
+}
+
+// spellDigits re-spells, in a request text, two numbers of the structured anchor origin digit by digit: another spelling
+// of the same doubles (9007199254740993 is 2^53, 10000000000000000000000 is 1e22), hence the same JSON value.
+func spellDigits(text []byte) []byte {
+	text = bytes.Replace(text, []byte("9007199254740992"), []byte("9007199254740993"), -1)
+
+	return bytes.Replace(text, []byte("1e+22"), []byte("10000000000000000000000"), -1)
 }
 
 func canonRef(ref int) string {
